@@ -60,18 +60,24 @@ func C07(c *core.Ctx) {
 				// err != io.EOF found false (or err == io.EOF found true), err being the error of a Token() call made after the first value
 				if isEOF(be.Y) || isEOF(be.X) {
 					if (be.Op == token.NEQ && !val) || (be.Op == token.EQL && val) {
-						// the tested error comes from a Token call in the same if statement
-						ast.Inspect(fd.Decl.Body, func(m ast.Node) bool {
-							is, ok := m.(*ast.IfStmt)
-							if !ok || is.Cond != leaf && !containsNode(is.Cond, leaf) || is.Init == nil {
-								return true
+						// the tested error is the error of a Token call (every definition of the variable is one)
+						other := be.X
+						if isEOF(be.X) {
+							other = be.Y
+						}
+						if ev := core.VarOf(info, other); ev != nil {
+							defs := core.NewLocalDefs(info, fd.Decl.Body).All(ev)
+							all := len(defs) > 0
+							for _, d := range defs {
+								call, isCall := ast.Unparen(d.RHS).(*ast.CallExpr)
+								if d.RHS == nil || !isCall || !isToken(core.Callee(info, call)) || d.N != 2 || d.Idx != 1 {
+									all = false
+								}
 							}
-							for _, tc := range core.CallsTo(info, is.Init, isToken) {
-								_ = tc
+							if all {
 								eofSeen = true
 							}
-							return true
-						})
+						}
 					}
 				}
 				g := core.GuardOf(info, leaf, ff.Errs)
@@ -232,31 +238,53 @@ func C07(c *core.Ctx) {
 	// R5 sort
 	if fd := p.Func("c14n", "Object", "Sort"); fd != nil {
 		ok := false
-		ast.Inspect(fd.Decl.Body, func(n ast.Node) bool {
-			fl, isFL := n.(*ast.FuncLit)
-			if !isFL || len(fl.Body.List) != 1 {
-				return true
+		// the comparison: a function literal handed to sort.Slice / SliceStable, or the Less method
+		// of the sort.Interface type the members are converted to for sort.Sort / Stable
+		checkLess := func(linfo *types.Info, body *ast.BlockStmt, pi, pj types.Object) {
+			if body == nil || len(body.List) != 1 {
+				return
 			}
-			r, isR := fl.Body.List[0].(*ast.ReturnStmt)
+			r, isR := body.List[0].(*ast.ReturnStmt)
 			if !isR || len(r.Results) != 1 {
-				return true
+				return
 			}
 			be, isB := ast.Unparen(r.Results[0]).(*ast.BinaryExpr)
 			if !isB || be.Op != token.LSS {
-				return true
+				return
 			}
-			fx, fy := core.FieldOf(info, be.X), core.FieldOf(info, be.Y)
+			fx, fy := core.FieldOf(linfo, be.X), core.FieldOf(linfo, be.Y)
 			if fx != nil && fx == fy && fx.Name() == "Key" && core.TypeString(fx.Type()) == "string" {
 				// left uses the first index parameter, right the second
-				ps := fl.Type.Params.List
+				if li, ri := indexVarOf(linfo, be.X), indexVarOf(linfo, be.Y); li != nil && li == pi && ri == pj {
+					ok = true
+				}
+			}
+		}
+		ast.Inspect(fd.Decl.Body, func(n ast.Node) bool {
+			switch x := n.(type) {
+			case *ast.FuncLit:
 				var names []*ast.Ident
-				for _, f := range ps {
+				for _, f := range x.Type.Params.List {
 					names = append(names, f.Names...)
 				}
 				if len(names) == 2 {
-					li, ri := indexVarOf(info, be.X), indexVarOf(info, be.Y)
-					if li == info.Defs[names[0]] && ri == info.Defs[names[1]] {
-						ok = true
+					checkLess(info, x.Body, info.Defs[names[0]], info.Defs[names[1]])
+				}
+			case *ast.CallExpr:
+				fn := core.Callee(info, x)
+				if fn == nil || fn.Pkg() == nil || fn.Pkg().Path() != "sort" || (fn.Name() != "Sort" && fn.Name() != "Stable") || len(x.Args) != 1 {
+					return true
+				}
+				t := info.TypeOf(x.Args[0])
+				if t == nil {
+					return true
+				}
+				obj, _, _ := types.LookupFieldOrMethod(t, true, fd.Obj.Pkg(), "Less")
+				lfn, _ := obj.(*types.Func)
+				if lfd := p.DeclOf(lfn); lfd != nil {
+					lsig := lfn.Type().(*types.Signature)
+					if lsig.Params().Len() == 2 {
+						checkLess(lfd.Pkg.TypesInfo, lfd.Decl.Body, lsig.Params().At(0), lsig.Params().At(1))
 					}
 				}
 			}
